@@ -36,7 +36,10 @@ ROUNDS = [("/tmp/det_all.log", "round 1 (machinery as first built, commit ba9e68
           ("/tmp/try_w2c.log", "wave 2, batch A, second evaluation (commit 1d1fcc6; shapes for the remaining batch-A changes added from their descriptions before evaluating)"),
           ("/tmp/try_w2d.log", "wave 2, batch B, first evaluation with the machinery frozen at commit 1d1fcc6 (descriptions not used)"),
           ("/tmp/try_w2e.log", "wave 2, after the strengthening that followed batch B"),
-          ("/tmp/try_w2f.log", "wave 2, thorough tier")]
+          ("/tmp/try_w2f.log", "wave 2, thorough tier"),
+          ("/tmp/try_w3a.log", "wave 3, first evaluation with the machinery frozen at commit da892cb (descriptions not used)"),
+          ("/tmp/try_w3b.log", "final machinery (commit 13e2195, after the strengthening that followed wave 3)"),
+          ("/tmp/try_w3c.log", "final machinery (commit 13e2195, after the strengthening that followed wave 3)")]
 det = []
 base = os.path.basename(patchfile)
 for f, label in ROUNDS:
